@@ -17,8 +17,6 @@ Ltac leq_heads H :=
       try discriminate H
   end.
 
-Definition is_mark (v : val) : bool := match v with VMark _ _ => true | _ => false end.
-
 (* the primitive view of a value: everything an operator looks at *)
 Definition pv (v : val) : val :=
   match v with
@@ -124,7 +122,7 @@ Lemma convert_cont_head_err v want r :
 Proof.
   intros Hc Hp Hd.
   assert (E : exists e, convert 1 v want = CErr e).
-  { destruct v; try discriminate; destruct want; try discriminate; eexists; reflexivity. }
+  { destruct v; try discriminate; destruct want; try discriminate; eexists; lazy; reflexivity. }
   destruct E as [e ->]. discriminate.
 Qed.
 
@@ -180,7 +178,7 @@ Definition eq_core (o : binop) (a b : val) : ores :=
 Lemma call_binop_eqop o a b :
   is_eqop o = true ->
   call_binop o a b = lift_marks (marks_union (deep_marks a) (deep_marks b)) (eq_core o a b).
-Proof. destruct o; try discriminate; reflexivity. Qed.
+Proof. destruct o; try discriminate; intros _; cbv beta iota delta [call_binop eq_core]; reflexivity. Qed.
 
 Lemma call_binop_leq m o a1 a2 b1 b2 r1 r2 :
   leq m a1 a2 -> leq m b1 b2 ->
@@ -217,4 +215,136 @@ Proof.
     destruct (mark_mem m (deep_marks a1)) eqn:Em.
     + apply stars_leq; apply with_marks_star; [exact Em|]. rewrite <- (leq_deep_mem m _ _ Ha). exact Em.
     + apply (leq_deep_eq m _ _ Ha) in Em. subst. rewrite X1 in X2. injection X2 as <-. apply leq_refl.
+Qed.
+
+(* ---- GetAttr and Index on an unmarked head + explicit marks ---------------------------------- *)
+Definition hd_null (x : val) : bool := match x with VNull _ => true | _ => false end.
+Definition hd_known (x : val) : bool := match x with VUnk _ _ => false | _ => true end.
+
+(* get_attr with the collection given as (unmarked head, marks) *)
+Definition get_attr_u (x : val) (om : marks) (name : list Z) : val * list diag :=
+  if hd_null x then (dyn_val, [derr S_GetAttrNull []])
+  else
+  match type_of x with
+  | TObj fs =>
+      match assoc_get name fs with
+      | None => (dyn_val, [derr S_UnsupportedAttr [FStr name []]])
+      | Some at_ =>
+          if negb (hd_known x) then (with_marks (VUnk at_ rf_none) om, [])
+          else
+          match x with
+          | VObj kvs => match assoc_get name kvs with
+                        | Some v => (with_marks v om, [])
+                        | None => (dyn_val, [dunsupported]) end
+          | _ => (dyn_val, [dunsupported])
+          end
+      end
+  | TMap et =>
+      if negb (hd_known x) then (with_marks (VUnk et rf_none) om, [])
+      else
+      match x with
+      | VMap _ kvs =>
+          match assoc_get name kvs with
+          | None => (dyn_val, [derr S_MissingMapElem [FStr name []]])
+          | Some v => (with_marks v om, [])
+          end
+      | _ => (dyn_val, [dunsupported])
+      end
+  | TDyn => (with_marks dyn_val om, [])
+  | TList (TObj fs) =>
+      (dyn_val, [derr S_UnsupportedAttr (match assoc_get name fs with Some _ => [FStr name []] | None => [] end)])
+  | TSet (TObj _) => (dyn_val, [derr S_UnsupportedAttr []])
+  | TStr | TNum | TBool => (dyn_val, [derr S_UnsupportedAttr [FTy (type_of x)]])
+  | _ => (dyn_val, [derr S_UnsupportedAttr []])
+  end.
+
+Lemma get_attr_unfold o n : get_attr o n = get_attr_u (fst (unmark o)) (snd (unmark o)) n.
+Proof. destruct o; reflexivity. Qed.
+
+Definition index_u (x : val) (cm : marks) (key : val) : val * list diag :=
+  if hd_null x then (dyn_val, [derr S_IndexNull []])
+  else if is_null key then (dyn_val, [derr S_InvalidIndex []])
+  else
+  let ty := type_of x in
+  let kty := type_of key in
+  if ty_eqb kty TDyn || ty_eqb ty TDyn then (with_marks dyn_val cm, [])
+  else
+  match ty with
+  | TList _ | TTuple _ | TMap _ =>
+      let want := match ty with TMap _ => TStr | _ => TNum end in
+      match conv key want with
+      | CUnsupported => (dyn_val, [dunsupported])
+      | CErr e => (dyn_val, [derr S_InvalidIndex [FConv e]])
+      | COk key' =>
+          let '(ku, km) := unmark key' in
+          match has_index x ku with
+          | HUnknown =>
+              match ty with
+              | TTuple _ => (with_marks (with_marks dyn_val cm) km, [])
+              | TList et | TMap et => (with_marks (with_marks (VUnk et rf_none) cm) km, [])
+              | _ => (dyn_val, [dunsupported])
+              end
+          | HFalse => (dyn_val, [derr S_InvalidIndex []])
+          | HTrue =>
+              match index_known x ku with
+              | Some v => (with_marks (with_marks v cm) km, [])
+              | None => (dyn_val, [dunsupported])
+              end
+          end
+      end
+  | TObj fs =>
+      match conv key TStr with
+      | CUnsupported => (dyn_val, [dunsupported])
+      | CErr e => (dyn_val, [derr S_InvalidIndex [FConv e]])
+      | COk key' =>
+          if negb (is_known key') then (with_marks dyn_val cm, [])
+          else
+          match fst (unmark key') with
+          | VStr name =>
+              match assoc_get name fs with
+              | None => (dyn_val, [derr S_InvalidIndex []])
+              | Some at_ =>
+                  if negb (hd_known x) then (with_marks (VUnk at_ rf_none) cm, [])
+                  else
+                  match x with
+                  | VObj kvs => match assoc_get name kvs with
+                                | Some v => (with_marks v cm, [])
+                                | None => (dyn_val, [dunsupported]) end
+                  | _ => (dyn_val, [dunsupported])
+                  end
+              end
+          | _ => (dyn_val, [dunsupported])
+          end
+      end
+  | TSet _ => (dyn_val, [derr S_InvalidIndex []])
+  | _ => (dyn_val, [derr S_InvalidIndex []])
+  end.
+
+Lemma index_unfold c k : index c k = index_u (fst (unmark c)) (snd (unmark c)) k.
+Proof. destruct c; reflexivity. Qed.
+
+(* case analysis helpers *)
+Ltac bm E :=
+  match type of E with
+  | context [match ?x with _ => _ end] => destruct x eqn:?
+  | context [if ?x then _ else _] => destruct x eqn:?
+  end.
+
+Ltac unclean Hc :=
+  exfalso; let A := fresh "UA" in let B := fresh "UB" in
+  destruct Hc as [A B]; cbn in A, B; congruence.
+
+Lemma get_attr_u_star m x om n r ds :
+  mark_mem m om = true -> get_attr_u x om n = (r, ds) -> clean ds -> is_star m r = true.
+Proof.
+  intros Hs E Hc. unfold get_attr_u in E.
+  repeat bm E; injection E as <- <-; try (unclean Hc); apply with_marks_star; exact Hs.
+Qed.
+
+Lemma index_u_star m x cm k r ds :
+  mark_mem m cm = true -> index_u x cm k = (r, ds) -> clean ds -> is_star m r = true.
+Proof.
+  intros Hs E Hc. unfold index_u in E.
+  repeat bm E; injection E as <- <-; try (unclean Hc);
+    rewrite ?is_star_with_marks, Hs, ?orb_true_r; reflexivity.
 Qed.
